@@ -455,6 +455,40 @@ pub fn run(ctx: &mut Ctx) {
     if crate::cli::global_cli().is_some() {
         ctx.shrink_iters = 150;
         ctx.run_prop("cli", ctx.tier.pick(600, 20_000), || crate::gen::tape(1500).prop_map(gen_case), judge_cli);
+        // strings that look like the syntax of a pre-processor a command might put in front of the JSON parser
+        // (comments, line continuations, templates): a string ending in a backslash, then strings holding //,
+        // /* */, #, ${..}, {{..}}, %s
+        use crate::refimpl::eip712::{StructDef, Ty, TypeGraph, Val};
+        let firsts = ["a\\", "\\", "C:\\dir\\", "x\\\\", "quote\"", "plain"];
+        let seconds = ["https://example.org/a", "//", "a//b", "/* c */", "# not a comment", "${HOME}", "{{name}}", "%s %d", "-- sql", "<!-- x -->", "\\u0041"];
+        let mut fixed = vec![];
+        for (i, a) in firsts.iter().enumerate() {
+            for (j, b) in seconds.iter().enumerate() {
+                let graph = TypeGraph {
+                    structs: vec![
+                        StructDef { name: "Note".into(), members: vec![("first".into(), Ty::String), ("second".into(), Ty::String), ("third".into(), Ty::String)] },
+                        StructDef { name: "EIP712Domain".into(), members: vec![("name".into(), Ty::String)] },
+                    ],
+                };
+                let model = TdModel {
+                    graph,
+                    primary: "Note".into(),
+                    message: Val::Struct(vec![("first".into(), Val::Str(a.to_string())), ("second".into(), Val::Str(b.to_string())), ("third".into(), Val::Str(format!("{b} {a}")))]),
+                    domain: Val::Struct(vec![("name".into(), Val::Str(b.to_string()))]),
+                };
+                // member order kept (first before second) and plain rendering: the text is what matters here
+                let doc = format!(
+                    "{{\"types\":{{\"EIP712Domain\":[{{\"name\":\"name\",\"type\":\"string\"}}],\"Note\":[{{\"name\":\"first\",\"type\":\"string\"}},{{\"name\":\"second\",\"type\":\"string\"}},{{\"name\":\"third\",\"type\":\"string\"}}]}},\"primaryType\":\"Note\",\"domain\":{{\"name\":{}}},\"message\":{{\"first\":{},\"second\":{},\"third\":{}}}}}",
+                    serde_json::to_string(b).unwrap(),
+                    serde_json::to_string(a).unwrap(),
+                    serde_json::to_string(b).unwrap(),
+                    serde_json::to_string(&format!("{b} {a}")).unwrap()
+                );
+                let _ = (i, j);
+                fixed.push(TdCase { doc, model });
+            }
+        }
+        ctx.run_cases("cli", &fixed, judge_cli);
         if ctx.cls.count("cli-timed-out") > 0 {
             ctx.inconclusive("CLI watchdog expired");
         }
